@@ -11,6 +11,7 @@ import (
 	"os"
 	"runtime"
 	"runtime/debug"
+	"sort"
 	"strings"
 	"sync"
 	"time"
@@ -201,7 +202,11 @@ func indexAddr(fr *frame, elems []value, idx value) value {
 	if lo == hi {
 		return &elems[lo]
 	}
-	return symElemPtr{elems: elems, idx: i64, lo: lo, hi: hi}
+	cells := make([]*value, hi-lo+1)
+	for k := range cells {
+		cells[k] = &elems[lo+k]
+	}
+	return symElemPtr{cells: cells, idx: i64, lo: lo}
 }
 
 // scalarElems reports whether an ITE merge over the elements is possible
@@ -284,7 +289,9 @@ func (e *Explorer) noteAppend(l, c, add int) {
 // Machine is one worker: an interpreter with its own globals, explorer and
 // solver process.
 type Machine struct {
-	i *interpreter
+	i            *interpreter
+	snapshot     map[*ssa.Global]value
+	snapshotOnce map[string]bool
 }
 
 // NewMachine prepares an interpreter over prog. mainPkg is only used to find
@@ -310,17 +317,62 @@ func (m *Machine) Close() { m.i.ex.solver.Close() }
 
 func (m *Machine) Solver() *Solver { return m.i.ex.solver }
 
-// resetGlobals zeroes every global and re-runs the package initialisers, so
-// that a path never sees state left behind by another path.
+// resetGlobals gives the path freshly initialised globals. The first call on a
+// machine zeroes everything and runs the package initialisers, then snapshots
+// the result; later calls restore a copy of the snapshot (aliasing-preserving
+// deep copy), which is much cheaper than re-running the initialisers.
 func (m *Machine) resetGlobals(root *ssa.Package) {
 	i := m.i
-	for g, cell := range i.globals {
-		if g.Pkg != nil && !InitAllowed(g.Pkg.Pkg.Path()) && !touchedOutsideInit(g) {
-			continue // never initialised by us, still zero
+	if m.snapshot == nil || os.Getenv("GOSYM_NOSNAPSHOT") != "" {
+		for g, cell := range i.globals {
+			if g.Pkg != nil && !InitAllowed(g.Pkg.Pkg.Path()) && !touchedOutsideInit(g) {
+				continue // never initialised by us, still zero
+			}
+			*cell = zero(mustDeref(g.Type()))
 		}
-		*cell = zero(mustDeref(g.Type()))
+		call(i, nil, token.NoPos, root.Func("init"), nil)
+		m.snapshot = cloneGlobals(i.globals)
+		if os.Getenv("GOSYM_GLOBALS") != "" {
+			sz := globalSizes(m.snapshot)
+			type kv struct {
+				k string
+				n int
+			}
+			var l []kv
+			tot := 0
+			for k, n := range sz {
+				l = append(l, kv{k, n})
+				tot += n
+			}
+			sort.Slice(l, func(a, b int) bool { return l[a].n > l[b].n })
+			fmt.Fprintf(os.Stderr, "globals: %d, values: %d\n", len(l), tot)
+			for j := 0; j < 25 && j < len(l); j++ {
+				fmt.Fprintf(os.Stderr, "  %8d %s\n", l[j].n, l[j].k)
+			}
+		}
+		m.snapshotOnce = cloneOnce(i.onceDone)
+		return
 	}
-	call(i, nil, token.NoPos, root.Func("init"), nil)
+	// globals created lazily after the snapshot was taken are re-zeroed
+	for g, cell := range i.globals {
+		if _, ok := m.snapshot[g]; !ok {
+			*cell = zero(mustDeref(g.Type()))
+		}
+	}
+	// copy the snapshot (so it stays pristine) with the stable cells as targets
+	fresh := cloneGlobalsInto(m.snapshot, i.globals)
+	for g, v := range fresh {
+		*i.globals[g] = v
+	}
+	i.onceDone = cloneOnce(m.snapshotOnce)
+}
+
+func cloneOnce(m map[string]bool) map[string]bool {
+	n := make(map[string]bool, len(m))
+	for k, v := range m {
+		n[k] = v
+	}
+	return n
 }
 
 // touchedOutsideInit: globals of packages whose init we skip can still be
@@ -403,7 +455,11 @@ func (m *Machine) runPath(root *ssa.Package, fn *ssa.Function) (end PathEnd) {
 	}()
 	m.i.overrides = map[string]value{}
 	m.i.onceDone = map[string]bool{}
+	ti := time.Now()
 	m.resetGlobals(root)
+	if progress && time.Since(ti) > 2*time.Millisecond {
+		fmt.Fprintf(os.Stderr, "  [init] package initialisers took %v (%d SSA instructions)\n", time.Since(ti).Round(time.Millisecond), ex.steps)
+	}
 	ex.steps = 0
 	call(m.i, nil, token.NoPos, fn, nil)
 	return PathEnd{Status: "ok"}
